@@ -101,7 +101,7 @@ func checkC07(c *Ctx) {
 		c.Ev.Extra["truncations_enumerated_exhaustively"] = true
 	} else {
 		for _, t := range targets {
-			n := 12
+			n := 80
 			if t.size < n {
 				n = t.size
 			}
@@ -112,9 +112,9 @@ func checkC07(c *Ctx) {
 		}
 	}
 	// substitutions: sampled (quick: ~25 per resource; thorough: budgeted)
-	nsub := 25
+	nsub := 150
 	if c.Tier == "thorough" {
-		nsub = 2500
+		nsub = 4000
 	}
 	for _, t := range targets {
 		if t.size == 0 {
@@ -130,9 +130,9 @@ func checkC07(c *Ctx) {
 		}
 	}
 	// multi-fault plans
-	nmulti := 4
+	nmulti := 20
 	if c.Tier == "thorough" {
-		nmulti = 200
+		nmulti = 300
 	}
 	for _, t := range targets {
 		if t.size < 4 {
